@@ -540,3 +540,58 @@ Proof.
 Qed.
 
 End Generic.
+
+(* ------------------------------------------------------------------ a known field of the input is kept: value and mark *)
+Lemma find_unique {A} (p : A -> bool) (x : A) : forall l, In x l -> p x = true ->
+  (forall y, In y l -> p y = true -> y = x) -> find p l = Some x.
+Proof.
+  induction l as [|y r IH]; intros Hin Hp Hu; [destruct Hin|]. cbn.
+  destruct (p y) eqn:E.
+  - f_equal. apply Hu; [left; reflexivity|exact E].
+  - destruct Hin as [->|Hin]; [congruence|]. apply IH; [exact Hin|exact Hp|]. intros z Hz. apply Hu. right. exact Hz.
+Qed.
+
+Section Kept.
+Variable fac : N -> N -> option fieldbase.
+Variable s : mspec.
+
+Definition only_one (fs : list field) (f : field) : Prop :=
+  forall g, In g fs -> goes_unknown s g = false -> f_num g = f_num f -> g = f.
+
+Lemma last_value_unique fs f : In f fs -> goes_unknown s f = false -> only_one fs f ->
+  last_value s fs (f_num f) = Some (f_value f).
+Proof.
+  intros Hin Hk Hu. unfold last_value, get.
+  rewrite (find_unique (fun g => f_num g =? f_num f) f); [reflexivity| | |].
+  - apply -> in_rev. unfold known_fields. apply filter_In. split; [exact Hin|rewrite Hk; reflexivity].
+  - apply N.eqb_refl.
+  - intros g Hg Hp. apply in_rev in Hg. unfold known_fields in Hg. apply filter_In in Hg. destruct Hg as [Hg Hgk].
+    apply negb_true_iff in Hgk. apply Hu; [exact Hg|exact Hgk|apply N.eqb_eq; exact Hp].
+Qed.
+
+Lemma marked_unique fs f : In f fs -> goes_unknown s f = false -> only_one fs f ->
+  marked s fs (f_num f) = f_expanded f.
+Proof.
+  intros Hin Hk Hu. unfold marked. destruct (f_expanded f) eqn:E.
+  - apply existsb_exists. exists f. split; [exact Hin|]. rewrite Hk, N.eqb_refl, E. reflexivity.
+  - apply not_true_is_false. intros H. apply existsb_exists in H. destruct H as (g & Hg & Hp).
+    repeat (apply andb_prop in Hp; destruct Hp as [Hp ?]). apply negb_true_iff in Hp.
+    match goal with H : (f_num g =? f_num f) = true |- _ => apply N.eqb_eq in H; rename H into Hn end.
+    rewrite (Hu g Hg Hp Hn) in *. congruence.
+Qed.
+
+Theorem known_field_kept o m f mf v' :
+  In f (m_fields m) -> goes_unknown s f = false -> only_one (m_fields m) f ->
+  In mf (ms_fields s) -> mf_num mf = f_num f ->
+  norm_value (mf_acc mf) (Some (f_value f)) = Some v' ->
+  (f_expanded f = true -> expandable s (f_num f) = true /\ include_expanded o = true) ->
+  In (created fac s (f_num f) v' (f_expanded f)) (m_fields (normalise fac s o m)).
+Proof.
+  intros Hin Hk Hu Hmf Hn Hv He. unfold normalise. cbn [m_fields]. apply in_app_iff. left.
+  apply in_flat_map. exists mf. split; [exact Hmf|]. unfold norm_field.
+  rewrite Hn, (last_value_unique _ f Hin Hk Hu), Hv, (marked_unique _ f Hin Hk Hu).
+  destruct (f_expanded f) eqn:E.
+  - destruct (He eq_refl) as [-> ->]. cbn. left. reflexivity.
+  - rewrite andb_false_r. cbn. left. reflexivity.
+Qed.
+End Kept.
